@@ -190,7 +190,7 @@ def catalogue():
         pos="multi")
     add("compound-nokeep", lambda: A.RegexTokenizer() | A.LowercaseFilter() | A.CompoundWordFilter(words, False),
         pos="multi")
-    add("delimited-attr", lambda: A.RegexTokenizer(r"[A-Za-z]+(\^[0-9.]+)?") | A.DelimitedAttributeFilter(), off=None)
+    add("delimited-attr", lambda: A.RegexTokenizer(r"[A-Za-z]+(\^[0-9]+(\.[0-9]+)?)?") | A.DelimitedAttributeFilter(), off=None)
     add("path", lambda: A.PathTokenizer(), pos="one")
     add("space-lower-stop-stem", lambda: A.SpaceSeparatedTokenizer() | A.LowercaseFilter() | A.StopFilter()
         | A.StemFilter())
@@ -289,7 +289,7 @@ def one_case(ctx, rng, CAT, names):
         kind = rng.choice(FIELD_KINDS_FOR_ANALYZER)
         field = make_field(kind, ana)
     ctx.count("cases")
-    ctx.count("config.%s" % aname)
+    ctx.count("z.config.%s" % aname)
     texts, classes = [], set()
     for _ in range(rng.randint(4, 6)):
         t, cl = gen_text(rng)
@@ -537,7 +537,8 @@ def _shifted_by_lowercase(text, t):
         word = m.group(0)
         low = word.lower()
         if len(low) != len(word) and ws <= t.sc and t.sc - ws <= len(low):
-            if low[t.sc - ws:t.ec - ws] == t.text:
+            a = t.sc - ws
+            if low[a:a + len(t.text)] == t.text:
                 return True
     return False
 
@@ -686,7 +687,7 @@ def run(ctx):
         ctx.extra["genshi_formatter"] = "available but not exercised"
     except Exception:  # noqa
         ctx.extra["genshi_formatter"] = "genshi not installed: GenshiFormatter not exercised"
-    for idx in ctx.cases(quick=260, thorough=2600):
+    for idx in ctx.cases(quick=700, thorough=5000):
         rng = ctx.rng(idx)
         ctx.reseed_global(idx)
         shape, nontrivial, sample = one_case(ctx, rng, CAT, names)
